@@ -33,7 +33,18 @@ func (t tc) run(c *h.Ctx, args ...string) h.ProcResult {
 		to = 30 * time.Second
 	}
 	c.Count("taskctl_processes", 1)
-	return h.Proc{Argv: append([]string{c.Bin}, args...), Dir: t.Dir, Env: h.BaseEnv(home, t.Env...), Timeout: to, Stdin: t.Stdin, KeepGroup: t.KeepGroup}.Run()
+	var res h.ProcResult
+	for try := 0; try < 4; try++ {
+		res = h.Proc{Argv: append([]string{c.Bin}, args...), Dir: t.Dir, Env: h.BaseEnv(home, t.Env...), Timeout: to, Stdin: t.Stdin, KeepGroup: t.KeepGroup}.Run()
+		// the machine (not taskctl) was out of file descriptors / inotify instances for a moment - many checks side
+		// by side: the invocation says nothing, it is repeated
+		if !strings.Contains(string(res.Stderr), "too many open files") && !strings.Contains(string(res.Stdout), "too many open files") {
+			break
+		}
+		c.Count("invocations_repeated_after_descriptor_exhaustion", 1)
+		time.Sleep(time.Duration(300*(try+1)) * time.Millisecond)
+	}
+	return res
 }
 
 var ansiRe = regexp.MustCompile("\x1b\\[[0-9;]*[A-Za-z]")
